@@ -214,8 +214,8 @@ def h_refuse(ctx, cfg):
                       key="%s: fully observed data refused by add_observations" % kind)
     # (b) a negative observation / (c) a NaN observation in an otherwise valid, fully observed screen
     tid = full.treatment_ids.tolist()
-    combo_rows = [i for i in range(R) if tid[i][0] != -1 and tid[i][1] != -1]
-    target = combo_rows[int(ctx.int("neg", 0, len(combo_rows) - 1))]
+    # the offending value sits in any one experiment: a combination, a single-agent or a vehicle-only row
+    target = int(ctx.int("neg", 0, R - 1))
     for what, val in (("negative", -0.25), ("NaN", float("nan")), ("negative (below float32 resolution)", -1e-60)):
         o2 = list(obs)
         o2[target] = val
